@@ -132,10 +132,12 @@ def run_engine(ctx):
     rc, out = ctx.go_test(".", ov, "^TestVerifIRC$", timeout=1500, env={
         "VERIF_IRC_OUT": trace, "VERIF_IRC_IN": prog_file, "VERIF_IRC_GEN": gen, "VERIF_IRC_LEN": glen,
         "VERIF_IRC_K": k, "VERIF_IRC_SNAP": 1})
-    if rc != 0 or "VERIF-IRC histories=" not in out:
+    if rc != 0 or not os.path.exists(trace):
         raise vlib.Inconclusive("IRC harness failed (rc=%s):\n%s" % (rc, out[-4000:]))
     res["harness_wall_s"] = round(time.time() - t0, 1)
     recs = vlib.read_ndjson(trace)
+    if not recs or recs[-1]["k"] != "end":
+        raise vlib.Inconclusive("IRC harness did not finish its trace:\n%s" % out[-2000:])
     steps = [x for x in recs if x["k"] == "step"]
     res["histories"] = len([x for x in recs if x["k"] == "reset"])
     res["steps"] = len(steps)
@@ -230,9 +232,45 @@ def signature(f):
     return sig
 
 
+def run_replay(ctx, path):
+    """Re-run one recorded failing program on the real code and validate it."""
+    with open(path) as fh:
+        v = json.load(fh)
+    prog = v["replay"]["program"]
+    prog_file = os.path.join(ctx.scratch, "programs.ndjson")
+    with open(prog_file, "w") as fh:
+        fh.write(json.dumps({"prog": prog}) + "\n")
+    trace = os.path.join(ctx.scratch, "irctrace.ndjson")
+    ov = ctx.overlay(overlay_map())
+    rc, out = ctx.go_test(".", ov, "^TestVerifIRC$", timeout=600, env={
+        "VERIF_IRC_OUT": trace, "VERIF_IRC_IN": prog_file, "VERIF_IRC_GEN": 0, "VERIF_IRC_K": 4, "VERIF_IRC_SNAP": 1})
+    if rc != 0 or not os.path.exists(trace):
+        raise vlib.Inconclusive("IRC harness failed (rc=%s):\n%s" % (rc, out[-4000:]))
+    rt = ctx.tlc("IRCTrace", cfg="IRCTrace.cfg", workers=1, timeout=600, files={"irctrace.ndjson": trace},
+                 deadlock=False, name="trace")
+    recs = vlib.read_ndjson(trace)
+    steps = [x for x in recs if x["k"] == "step"]
+    res = {"fail": [], "conf": [], "tlc": {"mc": {"distinct": 0, "generated": 0}, "sim": {"programs": 1},
+                                           "trace": {"distinct": rt.distinct, "generated": rt.generated}},
+           "histories": 1, "steps": len(steps), "steps_sup": len(steps), "scenarios": 0, "cmds": {}, "samples": [],
+           "cached": False}
+    byhi = {(x["h"], x["i"]): x for x in steps}
+    for item in _parse_tuple_lines(rt.out):
+        m = re.match(r'<<"PROP", <<"(C\d+)", "(\w+)">>, (\d+), (\d+)>>', item)
+        if m:
+            x = byhi[(int(m.group(3)), int(m.group(4)))]
+            print("REPLAY: %s %s false after entry %s: %r %s" % (m.group(1), m.group(2), m.group(4), x["e"].get("data", "")[:80],
+                                                                 (x.get("det") or x.get("snap") or x.get("panics") or "")[:200]))
+            res["fail"].append({"prop": m.group(1), "pred": m.group(2), "h": 1, "i": int(m.group(4)), "data": x["e"].get("data", ""),
+                                "cmd": x["e"].get("cmd", ""), "t": x["e"]["t"], "server": bool(x["e"].get("haspfx")),
+                                "det": x.get("det", ""), "snap": x.get("snap", ""), "snapat": 0, "lines": x.get("lines", ""),
+                                "panics": x.get("panics", ""), "program": prog[:int(m.group(4))]})
+    return res
+
+
 def report(ctx, pid, extra_note=None):
     """Common tail of every IRC-layer check."""
-    res = get_engine(ctx)
+    res = run_replay(ctx, ctx.replay) if getattr(ctx, "replay", None) else get_engine(ctx)
     mine = [f for f in res["fail"] if f["prop"] == pid]
     seen = set()
     for f in mine:
